@@ -264,6 +264,17 @@ func (c *FnCtx) contractMods(ct *FuncContract, ms *loopModSet) {
 			continue
 		}
 		if call, ok := m.Expr.(*ast.CallExpr); ok {
+			if id, ok := call.Fun.(*ast.Ident); ok && id.Name == "elems" && len(call.Args) == 1 {
+				inner := Clause{Expr: &ast.IndexExpr{X: call.Args[0], Index: ast.NewIdent("nil")}, Text: m.Text}
+				if names, ok := c.modHeapNames(ct, &inner); ok {
+					for n, s := range names {
+						ms.heaps[n] = s
+					}
+				} else {
+					ms.all = true
+				}
+				continue
+			}
 			if id, ok := call.Fun.(*ast.Ident); ok && id.Name == "mapof" && len(call.Args) == 1 {
 				inner := Clause{Expr: &ast.IndexExpr{X: call.Args[0], Index: ast.NewIdent("nil")}, Text: m.Text}
 				if names, ok := c.modHeapNames(ct, &inner); ok {
